@@ -17,6 +17,11 @@ CLAIMS = {
          "For generated values of every data type the library's wire bytes must equal the reference encoding and the reference encoding must decode to the value; documented minima/maxima/epoch vectors anchor the reference; the calendar helpers are compared with own civil-date arithmetic for every day of years 1..9999 (thorough) and are checked to be inverse and additive.",
          "The reference codec is my reading of TDS 5.0, not a live ASE; vectors from the ASE documentation guard against a shared misunderstanding.",
          "DESIGN.md section 3, C05"),
+ "C06": ("exploration",
+         "rapid package generators per token (all optional parts, boundary string lengths, formats/rows over all data types) with three oracles: independent reference encoder -> library decoder, library writer -> independent reference decoder (checks every length/count field), library writer -> library reader; exhaustive single capability bits; login record by offset table over all field lengths",
+         "Every package type reachable from LookupPackage (narrow and wide) is generated; server-sent forms come from an independently written encoder and must decode to the generated fields consuming exactly the bytes; whatever the library writes must be decodable by the independent decoder into the same fields and be read back by the library itself; client-built packages (exported API) and the 568-byte login record are decoded independently; every capability bit and every login field length 0..31 are enumerated.",
+         "The reference codec is my reading of TDS 5.0. BLOB formats are a recorded open finding (unfinished in the library) and excluded from generation. Data status bytes are generated as 0.",
+         "DESIGN.md section 3, C06"),
  "C15": ("exploration",
          "rapid model-based operation sequences (rx and tx usage) against a flat byte-slice / packet-layout model + exhaustive enumeration of all short sequences over a tiny packet size",
          "Operation sequences over the exported PacketQueue API are compared step by step with a flat byte model (bytes out = bytes in, in order; short read = ErrNotEnoughBytes; restore re-reads; discard is invisible) and a layout model for writes (Position after every write); all sequences up to length 5/6 (quick) and 7/8 (thorough) over small alphabets are enumerated completely.",
